@@ -2313,4 +2313,5 @@ M("t16-recursion-reported-late", "C17", "fire T16", "src/check.rs",
             return Err(errors);
         }""",
   """        errors.extend(recursive_type_defs);""", "self-containing types are only reported at the end: the function bodies are checked first (does not terminate)")
+REVERT("revert-type-definition-checks-c07", "C07", "fire F13", "e5f9d9e", "pre-fix tree: `struct S { a: S }` overflows the stack in compile")
 
